@@ -573,6 +573,12 @@ def run(ctx):
     guided = set()      # ids of the model-guided permission histories
     marksd = set()      # ids of the marks histories (gen_marks_c08d)
     replay_ins = None
+    if ctx.replay and json.load(open(ctx.replay))["replay"].get("part") == "chan":
+        # a replay of the channel part
+        from props import c08chan as c08ch
+        ctx.coverage["chan_part"] = c08ch.replay_part(ctx, json.load(open(ctx.replay))["replay"])
+        ctx.coverage.setdefault("trusted_base", [])
+        finish(ctx)
     if ctx.replay and json.load(open(ctx.replay))["replay"].get("part") == "kinds":
         # a replay of the p2p part
         from props import c08kinds as c08k
@@ -861,6 +867,11 @@ def run(ctx):
     if not ctx.replay:
         from props import c08kinds
         kinds_cov = c08kinds.run_part(ctx)
+    # ---- fourth part: private / public data of channel-enabled group topics
+    chan_cov = None
+    if not ctx.replay:
+        from props import c08chan
+        chan_cov = c08chan.run_part(ctx)
 
     # ---- coverage
     nt = set()
@@ -910,6 +921,8 @@ def run(ctx):
         ctx.coverage["desc_part"] = desc_cov
     if kinds_cov:
         ctx.coverage["p2p_part"] = kinds_cov
+    if chan_cov:
+        ctx.coverage["chan_part"] = chan_cov
     # ---- branch distribution of the permission requests (labels by the extracted classifier perm_branch_c08c on the
     # model's state; model and implementation agree on every reply, stored row and cached mode of these histories
     # unless a correspondence mismatch is reported above)
